@@ -2,6 +2,7 @@ From Coq Require Import ZArith String List Bool.
 From Grpchan Require Import lib.Cases lib.Hex.
 From Grpchan Require Export corr.Script.
 From Grpchan Require corr.Stream model.InprocStream.
+From Grpchan Require Export model.HttpUnary.   (* case files evaluate HttpUnary.possible on observed outcomes *)
 Import ListNotations.
 Open Scope Z_scope.
 
